@@ -170,6 +170,18 @@ def run(ctx):
         for rule in ("minItems: 0", "maxItems: 0", "additionalProperties: true"):
             for flag in ("const: false", "nullable: false"):
                 flagged.append(("container rule on a scalar rule-set + " + flag, '%s // {or: [{%s, %s}, {type: "%s"}]}' % (ex, rule, flag, o), "err"))
+    # a rule-set of nothing but flags that say nothing is as empty as {} (905); a null example under nullable next to a list of types is an example like any other
+    for fl in ("nullable: false", "const: false", "const: false, nullable: false"):
+        for ex, o in (('"s"', "integer"), ("1", "string"), ("true", "string"), ("[]", "integer")):
+            flagged.append(("rule-set of inert flags only", '%s // {or: [{%s}, {type: "%s"}]}' % (ex, fl, o), "err"))
+    flagged += [("null example under nullable next to a type reference", 'null // {type: "@A", nullable: true}', "ok"),
+                ("null example under nullable next to an or list", 'null // {or: ["string", "integer"], nullable: true}', "ok"),
+                ("null example under nullable next to an or list of user types", 'null // {or: ["@A", "@B"], nullable: true}', "ok"),
+                ("null example under a nullable rule-set", 'null // {or: [{type: "@A", nullable: true}, {type: "string"}]}', "ok"),
+                ("null example under a nullable rule-set of a JSON kind", 'null // {or: [{type: "integer", nullable: true}, {type: "string"}]}', "ok"),
+                ("null example in a property under nullable next to an or list", '{\n  "k": null // {or: ["@A", "integer"], nullable: true}\n}', "ok"),
+                ("null example under a type reference that is not nullable", 'null // {type: "@A"}', "err"),
+                ("null example under an or list without nullable", 'null // {or: ["@A", "@B"]}', "err")]
     typed = typed + flagged
     touts = vc.impl(["schema"], [json.dumps({"schema": sc, "types": TY, "ops": [["check"]]}) for _, sc, _ in typed])
     for (label, sc, want), o in zip(typed, touts):
